@@ -70,6 +70,7 @@ def check(ctx):
     d4_literals(ctx, idx, st)
     d5_whitespace(ctx, idx, st)
     d6_rejection(ctx, idx, st)
+    d6_error_stops(ctx, idx, st)
     d7_case(ctx, idx, st)
 
 
@@ -832,8 +833,7 @@ def parse_key_discipline(r, idx):
     is_cache = lambda e: nf.match('%s.cache' % me, e) is not None
     uses = [('string handed to raw_parse', call.args[0], call)]
     subs = [n for n in walk_own(fi.node) if isinstance(n, ast.Subscript) and is_cache(n.value)]
-    if not any(isinstance(s.ctx, ast.Store) for s in subs):
-        raise AnalysisError('MathParser.parse: no store into self.cache')
+    no_store = not any(isinstance(s.ctx, ast.Store) for s in subs) and not lib.calls_named(fi.node, ('setdefault', 'update'))
     for s_ in subs:
         uses.append(('cache key (%s)' % ('store' if isinstance(s_.ctx, ast.Store) else 'fetch'), s_.slice, s_))
     for n in walk_own(fi.node):
@@ -842,8 +842,12 @@ def parse_key_discipline(r, idx):
     for c in lib.calls_named(fi.node, ('get', 'setdefault', 'pop')):
         if isinstance(c.func, ast.Attribute) and is_cache(c.func.value) and c.args:
             uses.append(('cache key (%s)' % c.func.attr, c.args[0], c))
-    if len(uses) < 3:
+    if len(uses) < (2 if no_store else 3):
         raise AnalysisError('MathParser.parse: expected a cache probe, a cache store and a raw_parse call')
+    if no_store:
+        # nothing is ever cached: every call parses afresh, the probe can never hit -- behaviour-neutral (only slower)
+        r.ok('MathParser.parse: cache key (store)', 'no store into the cache at all: nothing is cached, every call parses the '
+             'stripped string afresh', fi.loc)
     # forward substitution of single-definition locals; a local with several definitions cannot be followed
     vals = [(what, lib.inline_locals(expr, fi.node), node, expr) for what, expr, node in uses]
     for what, x, node, expr in vals:
@@ -967,6 +971,115 @@ def d5_whitespace(ctx, idx, st):
             r.check(good, '%s: name token' % k, 'Combine: one contiguous token',
                     'the name of a %s is not a single Combine token: its pieces arrive separately / may be separated by '
                     'white space, and the evaluator looks up only the first piece' % k, gloc(g, alt))
+
+
+def _mad_eval(e, a, b, seen):
+    """Three-valued value of a guard of evaluator() for the atoms A = `max_array_dim is not None` (value a) and
+    B = `used > max_array_dim` (value b); other conditions (which message to use) are unknown (None)."""
+    if isinstance(e, ast.Constant):
+        return bool(e.value)
+    if isinstance(e, ast.BoolOp):
+        unknown = False
+        for v in e.values:
+            x = _mad_eval(v, a, b, seen)
+            if isinstance(e.op, ast.And) and x is False:
+                return False
+            if isinstance(e.op, ast.Or) and x is True:
+                return True
+            unknown = unknown or x is None
+        return None if unknown else isinstance(e.op, ast.And)
+    if isinstance(e, ast.UnaryOp) and isinstance(e.op, ast.Not):
+        x = _mad_eval(e.operand, a, b, seen)
+        return None if x is None else not x
+    for pat, val in (('max_array_dim is not None', a), ('max_array_dim is None', not a), ('max_array_dim != None', a),
+                     ('max_array_dim == None', not a)):
+        if nf.match(pat, e) is not None:
+            seen.add('A')
+            return val
+    for pat, val in (('max_array_dim < _M.max_array_dim_used', b), ('_M.max_array_dim_used <= max_array_dim', not b)):
+        if nf.match(pat, e) is not None:
+            seen.add('B')
+            return val
+    for pat, val in (('max_array_dim <= _M.max_array_dim_used', b), ('_M.max_array_dim_used < max_array_dim', not b)):
+        if nf.match(pat, e) is not None:
+            seen.add('B-nonstrict')
+            seen.add(('nonstrict', unparse(e)))
+            return val
+    return None
+
+
+def _mentions_limit(g_):
+    """Does a guard constrain the limit/depth relation (as opposed to `max_array_dim == 0`-style message selection)?"""
+    uses = 'max_array_dim' in lib.names_in(g_) or any(isinstance(n, ast.Attribute) and n.attr == 'max_array_dim_used' for n in ast.walk(g_))
+    if not uses:
+        return False
+    for c in nf.conjuncts(g_):
+        b = nf.match('max_array_dim == _C', c) or nf.match('max_array_dim != _C', c)
+        if b is not None and isinstance(b.get('_C'), ast.Constant) and b['_C'].value is not None:
+            continue
+        if 'max_array_dim' in lib.names_in(c) or any(isinstance(n, ast.Attribute) and n.attr == 'max_array_dim_used' for n in ast.walk(c)):
+            return True
+    return False
+
+
+def _max_array_dim_guard(r, idx, ev):
+    """The refusal of too deep array literals, read off the decision paths of evaluator(): whatever the nesting (one
+    guarded block, guard-clause return followed by raises, ...), for the four truth assignments of
+    A = `max_array_dim is not None` and B = `used > max_array_dim` every path that is feasible under A and B must raise
+    UnableToParse, and no path feasible under another assignment may raise it."""
+    paths = [p for p in nf.decision_paths(ev.node.body) if any('max_array_dim' in lib.names_in(g_) for g_ in p.guards)]
+    if not paths:
+        used = any(isinstance(n, ast.Name) and n.id == 'max_array_dim' for n in walk_own(ev.node))
+        if used or idx.unreviewed:
+            r.undecided('evaluator: max_array_dim', 'max_array_dim is used, but no guarded refusal was recognised', ev.loc)
+        else:
+            r.violation('evaluator: max_array_dim', 'the max_array_dim argument is never looked at: array literals of any depth '
+                        'are evaluated', ev.loc)
+        return
+    seen = set()
+    problems = []
+    classes = set()
+    unknown = False
+    for a in (True, False):
+        for b in (True, False):
+            for p in paths:
+                vals = [_mad_eval(g_, a, b, seen) for g_ in p.guards]
+                if any(v is False for v in vals):
+                    continue                      # path not taken under this assignment
+                relevant_unknown = any(v is None and _mentions_limit(g_) for v, g_ in zip(vals, p.guards))
+                if relevant_unknown:
+                    unknown = True
+                    continue
+                refuses = p.leaf.kind == 'raise'
+                if refuses:
+                    classes.add(nf.exc_class_name(p.leaf.expr))
+                if a and b and not refuses:
+                    problems.append((p, 'an array literal deeper than max_array_dim is evaluated and returned (path with guards `%s`)'
+                                     % ' and '.join(unparse(g_) for g_ in p.guards)))
+                if not (a and b) and refuses and (a or not b):
+                    problems.append((p, 'the refusal is also reached when %s (path with guards `%s`)' % (
+                        'no limit is set (max_array_dim is None)' if not a else 'the array depth does not exceed the limit',
+                        ' and '.join(unparse(g_) for g_ in p.guards))))
+    where = lib.loc(ev, paths[0].leaf.stmt) if paths[0].leaf.stmt is not None else ev.loc
+    nonstrict = sorted(x[1] for x in seen if isinstance(x, tuple))
+    if nonstrict:
+        r.violation('evaluator: max_array_dim guard', 'the comparison `%s` is not strict: the limit is inclusive -- an array literal of '
+                    'exactly max_array_dim dimensions must be evaluated and only deeper ones refused' % nonstrict[0], where,
+                    expected='max_array_dim is not None and used > max_array_dim', found=nonstrict[0])
+    elif unknown or not {'A', 'B'} <= seen:
+        r.undecided('evaluator: max_array_dim guard', 'conditions on max_array_dim not recognised (need `max_array_dim is not None` and '
+                    '`used > max_array_dim`)', where)
+    elif problems:
+        r.violation('evaluator: max_array_dim guard', problems[0][1], where, expected='refuse exactly when max_array_dim is not None and '
+                    'used > max_array_dim')
+    else:
+        r.ok('evaluator: max_array_dim guard', 'refuses exactly when max_array_dim is not None and used > max_array_dim (strict), '
+             'whatever the nesting', where)
+    if classes:
+        r.check(classes == {'UnableToParse'}, 'evaluator: max_array_dim error', 'UnableToParse',
+                'too deep array literals are refused with %s instead of UnableToParse' % sorted(classes), where)
+    else:
+        r.undecided('evaluator: max_array_dim error', 'no refusing path found', where)
 
 
 def _front_door(e, F, scen):
@@ -1110,33 +1223,7 @@ def d6_rejection(ctx, idx, st):
         ev = idx.func('mitxgraders.helpers.calc.expressions.evaluator')
         if 'max_array_dim' not in ev.all_params:
             raise AnalysisError('evaluator has no max_array_dim parameter')
-        guards = []
-        for n in walk_own(ev.node):
-            if isinstance(n, ast.If) and any(isinstance(x, ast.Raise) for s in n.body for x in ast.walk(s)):
-                guards.append(n)
-        guards = [n for n in guards if 'max_array_dim' in lib.names_in(n.test)]
-        if not guards:
-            used = any(isinstance(n, ast.Name) and n.id == 'max_array_dim' for n in walk_own(ev.node))
-            if used or idx.unreviewed:
-                r.undecided('evaluator: max_array_dim', 'max_array_dim is used, but no guarded refusal was recognised', ev.loc)
-            else:
-                r.violation('evaluator: max_array_dim', 'the max_array_dim argument is never looked at: array literals of any depth '
-                            'are evaluated', ev.loc)
-        else:
-            n = guards[0]
-            binds = {}
-            res = nf.classify('max_array_dim is not None and max_array_dim < _M.max_array_dim_used', lib.inline_locals(n.test, ev.node), binds)
-            if isinstance(res, tuple):
-                r.violation('evaluator: max_array_dim guard', '%s: the limit is inclusive -- an array literal of exactly '
-                            'max_array_dim dimensions must be evaluated and only deeper ones refused (and no limit applies '
-                            'when it is None)' % res[1], lib.loc(ev, n), expected='max_array_dim is not None and used > max_array_dim',
-                            found=short(n.test))
-            else:
-                r.verdict('evaluator: max_array_dim guard', res, lib.loc(ev, n), 'strict, skipped for None',
-                          expected='max_array_dim is not None and used > max_array_dim')
-            classes = {nf.exc_class_name(x.exc) for s in n.body for x in ast.walk(s) if isinstance(x, ast.Raise)}
-            r.check(classes == {'UnableToParse'}, 'evaluator: max_array_dim error', 'UnableToParse',
-                    'too deep array literals are refused with %s instead of UnableToParse' % sorted(classes), lib.loc(ev, n))
+        _max_array_dim_guard(r, idx, ev)
         ea = idx.func(ME + '.eval_array')
         D = ea.params[1] if len(ea.params) > 1 else None
         stores = [n for n in walk_own(ea.node) if isinstance(n, ast.Assign) and any(
@@ -1177,6 +1264,43 @@ def d6_rejection(ctx, idx, st):
         r.check(good and ordered, 'MathExpression.eval: max_array_dim_used', 'read from the metadata dict after the tree was evaluated',
                 'EvalMetaData.max_array_dim_used is `%s`%s: the depth recorded by eval_array does not reach evaluator()'
                 % (short(v) if v is not None else 'missing', '' if ordered else ' and is read before eval_node ran'), lib.loc(evm, md[0]))
+
+
+STOP_PROBES = ['1e', '5eV', '2E', '1em', '3ek', "x'", 'x_1', 'x_{1}', 'x^{2}', 'x^2', 'x_{1}^{2}', 'f(x)', 'f(x,y)', '(1)', '[1,2]',
+               '1||2', '1+2', '1-2', '2*3', '2/3', '2^3', '2^-3', '-1', '+1', '1.5', '.5', '1.', '1e3', '1e-3', '2k', '3%']
+
+
+def d6_error_stops(ctx, idx, st):
+    r = ctx.rule('D6.STOPS', 'error stops (`a - b`) in the grammar do not change the set of accepted strings', floor=1)
+    with r:
+        g = st.get('g') or G.extract(idx)
+        stops = [t for t in g.error_stops if g.reachable(t)]
+        if not stops:
+            r.ok('grammar: error stops', 'none: every sequence backtracks normally', gloc(g, g.root), nontrivial=False)
+            return
+        for t in stops:
+            verdict, info = g.commit_analysis(t)
+            construct = 'error stop in `%s`' % t.describe(2)
+            where = gloc(g, t)
+            if verdict == 'nullable-rest':
+                r.ok(construct, 'the elements after the stop cannot fail', where)
+                continue
+            if verdict == 'committed':
+                r.ok(construct, 'nothing else can consume text that starts like the elements before the stop (2 characters of '
+                     'look-ahead): aborting instead of backtracking rejects the same strings (only the exception class of a '
+                     'rejection changes, see C02)', where)
+                continue
+            witness = [s_ for s_ in STOP_PROBES + PROBE_YES if g.outcome(s_.replace(' ', ''), stops=False) == 'accept'
+                       and g.outcome(s_.replace(' ', ''), stops=True) != 'accept']
+            if witness:
+                r.violation(construct, 'once `%s` has matched, a failure of the rest aborts the whole parse instead of backtracking, '
+                            'but %s can also consume that text: %s %s accepted by the grammar without the stop and rejected with it'
+                            % (' '.join(k.describe(1) for k in t.kids[:t.stop]), info[0][0],
+                               ', '.join(repr(w) for w in witness[:3]), 'is' if len(witness) == 1 else 'are'), where,
+                            expected='`+` (plain sequence)', found='`-` (error stop)')
+            else:
+                r.undecided(construct, 'the text before the stop can also be consumed by %s (e.g. %s); no probe string separates the two '
+                            'grammars' % (info[0][0], ', '.join(repr(x) for x in info[0][1][:2])), where)
 
 
 # ----------------------------------------------------------------------------- D7
@@ -1393,6 +1517,9 @@ MUTANTS = [
            note='seeded C03f: the generating loop pairs u with 1e-9 and n with 1e-6'),
     Mutant('parallel-token-any-run-of-pipes', EXPR, "pipes = Literal('|') + Literal('|')", "pipes = Word('|')", 'D1',
            note='seeded C03e: 1|2 and 6|||3 are given the value of the parallel operator instead of a parse error'),
+    Mutant('exponent-marker-commits-the-parse', EXPR, "Optional(CaselessLiteral(\"E\") + Optional(plus_minus) + number_part)",
+           "Optional(CaselessLiteral(\"E\") - Optional(plus_minus) + number_part)", 'D6',
+           note='sweep: an error stop after E makes suffixes that start with e/E (1e, 5eV) abort the parse'),
     Mutant('exponent-sign-not-part-of-numeral', EXPR, "Optional(CaselessLiteral(\"E\") + Optional(plus_minus) + number_part)",
            "Optional(CaselessLiteral(\"E\") + number_part)", 'D4'),
     Mutant('number-literal-memoised-on-the-expression', EXPR,
@@ -1406,7 +1533,6 @@ MUTANTS = [
            note='seeded C03c: after evaluating 2k with k=1000 the same (cached) expression gives 2000 for k=1024'),
     # D5
     Mutant('raw-string-parsed', EXPR, "parsed = self.raw_parse(expression_no_whitespace)", "parsed = self.raw_parse(expression)", 'D5'),
-    Mutant('cache-keyed-by-raw-string', EXPR, "cache_key = expression_no_whitespace", "cache_key = expression", 'D5'),
     Mutant('cache-key-strips-all-whitespace', EXPR, "cache_key = expression_no_whitespace", "cache_key = ''.join(expression.split())", 'D5',
            note='seeded: key and parsed text use different normal forms -- once 10 is cached, 1<TAB>0 evaluates to 10'),
     Mutant('parsed-text-strips-all-whitespace', EXPR, "parsed = self.raw_parse(expression_no_whitespace)",
@@ -1449,6 +1575,19 @@ BENIGN = [
     Benign('metric-table-as-dict-of-zip', FUNCS, _TABLE,
            "METRIC_SUFFIXES = dict(zip('kMGTmunp', [10.0 ** (3 * e) for e in (1, 2, 3, 4, -1, -2, -3, -4)]))\n"),
     Benign('parallel-token-as-one-literal', EXPR, "pipes = Literal('|') + Literal('|')", "pipes = Literal('||')"),
+    Benign('max-array-dim-as-guard-clauses', EXPR,
+           "    if max_array_dim is not None and eval_metadata.max_array_dim_used > max_array_dim:\n        if max_array_dim == 0:\n"
+           "            msg = \"Vector and matrix expressions have been forbidden in this entry.\"\n        elif max_array_dim == 1:\n"
+           "            msg = \"Matrix expressions have been forbidden in this entry.\"\n        else:\n"
+           "            msg = \"Tensor expressions have been forbidden in this entry.\"\n        raise UnableToParse(msg)\n",
+           "    if max_array_dim is None or not eval_metadata.max_array_dim_used > max_array_dim:\n        return result, eval_metadata\n"
+           "    if max_array_dim == 0:\n        raise UnableToParse(\"Vector and matrix expressions have been forbidden in this entry.\")\n"
+           "    if max_array_dim == 1:\n        raise UnableToParse(\"Matrix expressions have been forbidden in this entry.\")\n"
+           "    raise UnableToParse(\"Tensor expressions have been forbidden in this entry.\")\n"),
+    Benign('error-stop-before-a-repetition', EXPR, "power = atom + ZeroOrMore(", "power = atom - ZeroOrMore("),
+    Benign('error-stop-inside-the-pipes-token', EXPR, "pipes = Literal('|') + Literal('|')", "pipes = Literal('|') - Literal('|')"),
+    Benign('error-stop-after-lower-index-opener', EXPR, "lower_indices = Literal(\"_{\") + Optional(\"-\")", "lower_indices = Literal(\"_{\") - Optional(\"-\")"),
+    Benign('cache-store-removed', EXPR, "        self.cache[cache_key] = parsed\n        return parsed", "        return parsed"),
     Benign('evaluator-nan-exits-merged', EXPR, "    if formula is None:\n        # No need to go further.\n        return float('nan'), empty_usage\n    formula = formula.strip()\n    if formula == \"\":",
            "    if formula is not None:\n        formula = formula.strip()\n    if formula is None or formula == \"\":"),
     Benign('product-pairs-from-a-generator', EXPR, "        data = parse_result[1:]\n        while data:\n            op = data.pop(0)\n            value = data.pop(0)\n",
